@@ -395,6 +395,11 @@ func VH_C04_apply() {
 	nscopes := vx.ParamInt("scopes")
 	w := vBuild(nscopes, []int{tPS, tName, tNum, tI})
 	tgt := &vTarget{E: 99}
+	if vx.Bool() {
+		// the struct was filled before (an earlier Apply, another scope): Apply sets every tagged field anew
+		tgt.A = &vS{tag: 77}
+		tgt.B = "7"
+	}
 	err := w.scopes[0].Apply(tgt)
 	sa, sb, sd := w.vResolve(tPS), w.vResolve(tName), w.vResolve(tI)
 	switch {
